@@ -2702,6 +2702,11 @@ impl Server {
             1
         };
         
+        // (a count of 0 pops nothing, but a key of another type is refused all the same)
+        if count == 0 {
+            self.storage.zrange(db, key, 0, 0, false)?;
+        }
+        
         // Pop members with atomic operations
         let mut results = Vec::new();
         for _ in 0..count {
@@ -2746,6 +2751,11 @@ impl Server {
         } else {
             1
         };
+        
+        // (a count of 0 pops nothing, but a key of another type is refused all the same)
+        if count == 0 {
+            self.storage.zrange(db, key, 0, 0, false)?;
+        }
         
         // Pop members with atomic operations
         let mut results = Vec::new();
